@@ -650,7 +650,9 @@ fn c05(args: &Args, rep: &mut Report, w: &Watch) {
         let mut rng = Rng::new(args.seed, &format!("c05|{}|{}", args.shard, i));
         let ndefs = if rng.chance(1, 2) { 1 + rng.below(3) } else { 0 };
         let (defs, s, t0) = {
-            let mut g = RandGen { rng: &mut rng, names: vec![], allow_any: false, allow_tpl: false, allow_exotic: false };
+            // (one case in three may use class-instance leaves: typed arrays, bigint, Date)
+            let exotic = rng.chance(1, 3);
+            let mut g = RandGen { rng: &mut rng, names: vec![], allow_any: false, allow_tpl: false, allow_exotic: exotic };
             let defs = if ndefs > 0 { g.defs(ndefs) } else { vec![] };
             let bs = 2 + g.rng.below(6);
             let s = g.ty(bs, true);
